@@ -103,7 +103,7 @@ impl CryptoFrame {
 /// [nom](https://docs.rs/nom/latest/nom/) parser style.
 pub fn be_crypto_frame(input: &[u8]) -> nom::IResult<&[u8], CryptoFrame> {
     let (remain, (offset, length)) = (be_varint, be_varint).parse(input)?;
-    if offset.into_u64() + offset.into_u64() > VARINT_MAX {
+    if offset.into_u64() + length.into_u64() > VARINT_MAX {
         return Err(nom::Err::Error(nom::error::make_error(
             input,
             nom::error::ErrorKind::TooLarge,
